@@ -55,11 +55,17 @@ def build_world(prop, plan):
             if url.get('etag', True):
                 for tagform in (etag(u, v), etag(u, v, True)):
                     r = srv.sub('rule inm_%d_%d when cur%d=%d has %s has %s' % (u, v, u, v, tok(path + b' '), tok(b'If-None-Match: ' + tagform.encode())))
-                    r.add('expect body'); r.add('send %s subst' % tok(cond_h))
+                    r.add('expect body')
+                    if url.get('cond_delay'):
+                        r.add('wait %d' % url['cond_delay'])
+                    r.add('send %s subst' % tok(cond_h))
             if url.get('lm'):
                 # If-None-Match takes precedence: a request carrying it never gets a 304 on If-Modified-Since alone (RFC 9110 13.2.2)
                 r = srv.sub('rule ims_%d_%d when cur%d=%d has %s has %s nothas %s' % (u, v, u, v, tok(path + b' '), tok(b'If-Modified-Since: ' + lm_date(v).encode()), tok(b'If-None-Match:')))
-                r.add('expect body'); r.add('send %s subst' % tok(cond_h))
+                r.add('expect body')
+                if url.get('cond_delay'):
+                    r.add('wait %d' % url['cond_delay'])
+                r.add('send %s subst' % tok(cond_h))
             rng = random.Random(u * 1000 + v)
             body = Payload(G(key, 0, size))
             hs = origin_headers(url, u, v)
